@@ -278,6 +278,11 @@ func cmdCheck(args []string) int {
 			if o.Status == "DISAGREE" || o.Status == "ERROR" {
 				engineFail++
 				fmt.Printf("ENGINE-FAILURE %s: %s %s\n", o.Name, o.Status, truncate(o.Raw, 300))
+				if *dump != "" {
+					os.MkdirAll(*dump, 0o755)
+					os.WriteFile(*dump+"/"+smtSym(o.Name)+".smt2", []byte(u.Ctx.query(o, true)), 0o644)
+					os.WriteFile(*dump+"/"+smtSym(o.Name)+".sliced.smt2", []byte(u.Ctx.slicedQuery(o, true)), 0o644)
+				}
 				continue
 			}
 			if *verbose || true {
